@@ -79,8 +79,11 @@ INTERNAL = re.compile(r"\b[A-Z][A-Za-z]+Failed\b|\b[A-Z][A-Za-z]+ \{ \w+:|\bSome
 
 # statements that fail *inside* one more (anonymous method) call frame than the one they are written in
 FRAME_STMT_ERRORS = [
-    ("this_param_clash", 'm2 := {"f": fn (this) {\n    return 1\n}}\nm2.f(1)'),
-    ("method_body_error", 'm3 := {"g": fn () {\n    return zz_undefined\n}}\nm3.g()'),
+    ("this_param_clash", 'm2 := {"f": fn (this) {\n    return 1\n}}\nm2.f(1)', "<unnamed function>"),
+    ("method_body_error", 'm3 := {"g": fn () {\n    return zz_undefined\n}}\nm3.g()', "<unnamed function>"),
+    ("param_pattern_mismatch", 'fn g_pm([pa, pb]) {\n    return pa\n}\ng_pm([3])', "g_pm"),
+    ("param_object_pattern_missing", 'fn g_po({pa}) {\n    return pa\n}\ng_po({"other": 1})', "g_po"),
+    ("param_pattern_mismatch_second_call", 'fn g_p2([pa, pb]) {\n    return pa\n}\ng_p2([1, 2])\ng_p2([3])', "g_p2"),
 ]
 
 
@@ -246,10 +249,10 @@ def run(ctx, model_ok):
             for depth in (2, 3):
                 for ck in ("plain", "loop", "method"):
                     cases.append(((name, "call-style:" + style, depth, ck),) + wrap(st, depth, ck, call_style=style))
-    for name, st in FRAME_STMT_ERRORS:
+    for name, st, frame in FRAME_STMT_ERRORS:
         for depth in range(0, min(maxd, 2) + 1):
             for ck in ("plain", "loop", "block"):
-                cases.append(((name, "stmt", depth, ck),) + wrap(st, depth, ck, extra_frame="<unnamed function>"))
+                cases.append(((name, "stmt", depth, ck),) + wrap(st, depth, ck, extra_frame=frame))
     # jumps that escape a called function / the program
     for j in ("break", "continue"):
         for depth in (1, 2, 3):
